@@ -4,8 +4,12 @@
 Import-free, executable.  Mirrors, at the granularity of the instrumented points,
 
 * `IndexReader::open` (`searchlite-core/src/api/reader.rs`): copy the in-memory manifest under
-  the read lock (`rd`, first time), release the lock, then open the segment files of the *copy*
-  one after the other (`rd`, following times).  A segment reader keeps file handles / buffers:
+  the read lock (`rd`, first time), then open the segment files of the *copy* one after the
+  other (`rd`, following times).  **Repaired protocol** (commit fefbd27): the manifest read guard
+  is kept until the last segment of the copy is open, so no `publish` (which needs the manifest
+  write guard) can fall between the copy and the last open — `legalFrom` below.  **Original
+  protocol**: the guard was released right after the copy (any interleaving was possible;
+  `compact_breaks_open` in `Props/C06` is the negative witness).  A segment reader keeps file handles / buffers:
   what it read at open time stays readable after an unlink ("open handles survive unlink") —
   in the model the content is captured at open time.
 * `IndexWriter::commit`: write a new segment file (`create`), swap the manifest (`publish`);
@@ -117,6 +121,30 @@ def openWindowProtected (m : List (κ × μ)) : List (Step κ μ γ) → Bool
   | .env (.publish m') :: ss => openWindowProtected m' ss
   | .env (.create _ _) :: ss => openWindowProtected m ss
   | .env (.unlink _) :: ss => openWindowProtected m ss
+
+/-- a manifest is closed in a directory: every file it names exists -/
+def closed (w : World κ μ γ) : Bool := (snapshot w.dir w.manifest).isSome
+
+/-- **Schedules of the repaired protocol** (and of the writers' file discipline), from world `w`
+with reader state `r` (`none`: no copy yet; `some k`: copy done, `k` opens to come — the
+manifest read guard is held while `k > 0`):
+* `publish` needs the manifest write guard: impossible while the reader holds the read guard;
+  it publishes only manifests whose files exist (commit and compaction write the segment first);
+* `create` writes a new segment under a name the manifest in force does not use;
+* `unlink` (compaction cleanup, commit error path) only removes files the manifest in force
+  does not name. -/
+def legalFrom (w : World κ μ γ) : Option Nat → List (Step κ μ γ) → Bool
+  | _, [] => true
+  | none, .rd :: ss => legalFrom w (some w.manifest.length) ss
+  | some 0, .rd :: ss => legalFrom w (some 0) ss
+  | some (k + 1), .rd :: ss => legalFrom w (some k) ss
+  | r, .env (.publish m) :: ss =>
+    (match r with | some (_ + 1) => false | _ => true) &&
+    closed { w with manifest := m } && legalFrom (act w (.publish m)) r ss
+  | r, .env (.create n c) :: ss =>
+    !((names w.manifest).contains n) && legalFrom (act w (.create n c)) r ss
+  | r, .env (.unlink n) :: ss =>
+    !((names w.manifest).contains n) && legalFrom (act w (.unlink n)) r ss
 
 /-- the writer programs of the code, as action lists (new segment `n` with content `c`) -/
 def commitActs (newManifest : List (κ × μ)) (n : κ) (c : γ) : List (Act κ μ γ) :=
